@@ -1,8 +1,8 @@
 package main
 
 import (
-	"bytes"
 	"bufio"
+	"bytes"
 	"encoding/json"
 	"flag"
 	"fmt"
@@ -284,12 +284,35 @@ func cmdMemWitness(args []string) error {
 			add("infra:hook-not-reached", "wf_rm", "Remove did not reach the remove.checked hook")
 			continue
 		}
-		if creator == "write" {
-			werr = fs.WriteFile("d/x", []byte("X"), filesystem.DefaultUnixFileMode)
-		} else {
-			werr = fs.MkdirAll("d/x", filesystem.DefaultUnixDirMode)
+		created := make(chan error, 1)
+		go func() {
+			if creator == "write" {
+				created <- fs.WriteFile("d/x", []byte("X"), filesystem.DefaultUnixFileMode)
+			} else {
+				created <- fs.MkdirAll("d/x", filesystem.DefaultUnixDirMode)
+			}
+		}()
+		released := false
+		select {
+		case werr = <-created:
+		case <-time.After(300 * time.Millisecond):
+			// the creation waits for the parked Remove (an implementation may hold a lock across its emptiness test and
+			// the removal -- that is no violation): let the Remove go on and see how both end
+			close(release)
+			released = true
+			select {
+			case werr = <-created:
+			case <-time.After(5 * time.Second):
+				buf := make([]byte, 1<<15)
+				k := runtime.Stack(buf, true)
+				add("hang", "wf_rm", creator+"(d/x) did not return within 5 s after Remove(d) was released\n"+string(buf[:k]))
+				memfs.VerifHook = nil
+				continue
+			}
 		}
-		close(release)
+		if !released {
+			close(release)
+		}
 		var rerr error
 		select {
 		case rerr = <-rmDone:
@@ -386,6 +409,58 @@ func cmdMemWitness(args []string) error {
 			case <-time.After(5 * time.Second):
 				add("hang", "sc_rd", "ReadFile did not return after the writer closed")
 			}
+		}
+	}
+	// ---- rm_cp_wf: Remove(p/c) parked after its emptiness test, then WriteFile(p/c/x) and Copy(p, q) started, then the
+	// Remove released: whatever locks an implementation holds at that point, all three calls must return (lock order)
+	for round := 0; round < 3; round++ {
+		executed++
+		fs, _ := memfs.NewFilespace()
+		fs.MkdirAll("p/c", filesystem.DefaultUnixDirMode)
+		fs.WriteFile("p/a", bytes.Repeat([]byte("A"), 1<<20), filesystem.DefaultUnixFileMode)
+		parked := make(chan struct{})
+		release := make(chan struct{})
+		var once sync.Once
+		memfs.VerifHook = func(site, path string) {
+			if site == "remove.checked" {
+				once.Do(func() { close(parked); <-release })
+			}
+		}
+		done := make(chan string, 3)
+		go func() { fs.Remove("p/c"); done <- "remove" }()
+		select {
+		case <-parked:
+		case <-time.After(3 * time.Second):
+			memfs.VerifHook = nil
+			add("infra:hook-not-reached", "rm_cp_wf", "Remove did not reach the remove.checked hook")
+			continue
+		}
+		go func() {
+			fs.WriteFile("p/c/x", []byte("X"), filesystem.DefaultUnixFileMode)
+			done <- "writefile"
+		}()
+		time.Sleep(20 * time.Millisecond)
+		go func() { fs.Copy("p", fmt.Sprintf("q%d", round)); done <- "copy" }()
+		time.Sleep(20 * time.Millisecond)
+		close(release)
+		finished := map[string]bool{}
+		timeout := time.After(5 * time.Second)
+	waitAll:
+		for len(finished) < 3 {
+			select {
+			case who := <-done:
+				finished[who] = true
+			case <-timeout:
+				buf := make([]byte, 1<<15)
+				k := runtime.Stack(buf, true)
+				add("deadlock:remove-copy-create", "Remove(p/c) between its emptiness test and the removal, WriteFile(p/c/x) and Copy(p, q) waiting, Remove released",
+					fmt.Sprintf("only %v returned within 5 s\n%s", finished, buf[:k]))
+				break waitAll
+			}
+		}
+		memfs.VerifHook = nil
+		if len(finished) < 3 {
+			break // parked goroutines remain
 		}
 	}
 	// ---- sw_cp: a copy (of the file, of its directory) while a stream writer holds the file open with part of
